@@ -72,6 +72,11 @@ CLAIMS["C09"] = dict(
    text="Decides structurally that the Python-level caches (GCM, CCM, OCB payload and associated data, CMAC) hand the native layer whole blocks whose concatenation plus the cache equals the input for every partition of a representative family (including empty segments while bytes are pending), that every AEAD mode feeds its MAC from the right buffer on the right side of the cipher call so that an aliased output cannot corrupt the MAC input, that the output= contract is identical in all wrappers, and that caller-owned mutable data kept across calls is copied. The C-side alias order of the mode loops is the E-C part. Equality of results for every partition is not decided.",
    note="Partition family and expectations in vstat/props/C09.py; the per-mode table of which text is authenticated is from the mode specifications.")
 
+CLAIMS["C02"] = dict(
+   technique="constant/dispatch conformance by abstract interpretation of the numeric dispatch; guard normalisation by region enumeration; piecewise observation rows for formatting code with a normative value; def-use of exposed vs used nonce",
+   text="Decides the Python-visible necessary conditions of interoperability: every cipher module's MODE_* numbers and the numeric dispatch agree with the documented table; key/nonce/IV/segment domains are exact (incl. 3DES degenerate keys up to parity); CCM's B0 and associated-data length header (at the 2^16-2^8 and 2^32 thresholds), GCM's J0/inc32/tag-mask counter blocks for every IV length class, SIV's counter mask are the standards' values; the default nonce lengths and the identity of exposed and used nonce. Cipher tables and the C mode loops are the E-C part. Ciphertext equality for all inputs is not decided.",
+   note="Formatting references (SP 800-38C A.2, SP 800-38D 7.1, RFC 5297) are written in vstat/props/c02_extra.py.")
+
 NOT_YET = {}
 
 ALL = ["C%02d" % i for i in range(1, 21)]
